@@ -1,7 +1,8 @@
 // C20 (engine K): ServiceState::update_service_state_entry, injected as a child module of
 // proxy_agent_extension/src/service_main/service_state.rs. The scratch copy's
 // `use std::collections::HashMap;` line is rewritten to the association-list model below
-// (lib/p_c20.py does the rewrite and fails with exit 2 if the line is missing).
+// (lib/p_c20.py does the rewrite and fails with exit 2 if the line is missing). The model offers the lookup/update API of
+// std's HashMap except the Entry API and iteration (a refactoring onto those needs the model extended: exit 2, never an alarm).
 use super::*;
 
 pub struct HashMap<K, V> {
@@ -27,6 +28,38 @@ impl<V> HashMap<String, V> {
             i += 1;
         }
         None
+    }
+    pub fn get(&self, k: &str) -> Option<&V> {
+        let mut i = 0;
+        while i < self.items.len() {
+            if self.items[i].0 == k {
+                return Some(&self.items[i].1);
+            }
+            i += 1;
+        }
+        None
+    }
+    pub fn contains_key(&self, k: &str) -> bool {
+        self.get(k).is_some()
+    }
+    pub fn remove(&mut self, k: &str) -> Option<V> {
+        let mut i = 0;
+        while i < self.items.len() {
+            if self.items[i].0 == k {
+                return Some(self.items.remove(i).1);
+            }
+            i += 1;
+        }
+        None
+    }
+    pub fn len(&self) -> usize {
+        self.items.len()
+    }
+    pub fn is_empty(&self) -> bool {
+        self.items.is_empty()
+    }
+    pub fn clear(&mut self) {
+        self.items.clear()
     }
     pub fn insert(&mut self, k: String, v: V) -> Option<V> {
         let mut i = 0;
